@@ -257,7 +257,8 @@ def run(ctx):
         ctx.check(okv, "C19:file:reader:values", "values read from the file are not type-checked after loading: %s" % okey(stt),
                   where("loadparameters"))
     # ---- save -> load round trip per kind of value
-    for label, val in (("float", va), ("int", vi), ("word", ww), ("empty-string", "")):
+    vbig = num_atom("vbig", "bigint")        # an int beyond 2**53: float(vbig) is another number, int - float coerces the int
+    for label, val in (("float", va), ("int", vi), ("big-int", vbig), ("word", ww), ("empty-string", "")):
         w = World(mod)
         p = w.new(kx=val, ky=va)
         w.call(p, "saveparameters", "rt.par")
@@ -272,7 +273,7 @@ def run(ctx):
     cases = {
         "non-string": (va, va), "object": (Sym("o", "other"), Sym("o", "other")),
         "not-a-number": (SStr(["  ", ww, " \n"]), ww), "float-only": (SStr([" ", Text("va"), "\n"]), va),
-        "integer": (SStr([Text("vi"), "\n"]), vi), "word": (ww, ww),
+        "integer": (SStr([Text("vi"), "\n"]), vi), "big-integer": (SStr([Text("vbig"), "\n"]), vbig), "word": (ww, ww),
     }
     for name, (val, want) in cases.items():
         w = World(mod)
